@@ -34,6 +34,7 @@ type Op struct {
 	State  string            `json:"state,omitempty"`
 	Type   string            `json:"type,omitempty"`
 	Veto   bool              `json:"veto,omitempty"`
+	Args   map[string]int    `json:"args,omitempty"` // tx: mutation args; sub whenargs: requested args
 	Window []Op              `json:"window,omitempty"`
 }
 
@@ -71,6 +72,32 @@ func (t *recTracer) TransitionEnd(tx *am.Transition) {
 		"accepted": acc, "check": tx.Mutation.IsCheck, "ticked": tx.Mutation.QueueTick > 0,
 		"activated": act, "deactivated": deact, "auto": tx.Mutation.IsAuto,
 	}
+}
+
+func toA(a map[string]int) am.A {
+	if a == nil {
+		return nil
+	}
+	out := am.A{}
+	for k, v := range a {
+		out[k] = v
+	}
+	return out
+}
+
+// argPairs: [[key, value], ...] sorted by key (a JSON object with free keys is
+// awkward on the TLA+ side)
+func argPairs(a map[string]int) [][]any {
+	out := [][]any{}
+	keys := []string{}
+	for k := range a {
+		keys = append(keys, k)
+	}
+	sort.Strings(keys)
+	for _, k := range keys {
+		out = append(out, []any{k, a[k]})
+	}
+	return out
 }
 
 // Run executes the scenario and returns the event lines.
@@ -177,15 +204,17 @@ func Run(sc Scenario) (lines []any) {
 				ev["times"] = map[string]uint64{op.State: t}
 				ch = m.WhenTime1(op.State, t, getCtx(op.Ctx))
 			case "whenticks":
-				t := m.Tick(op.State) + uint64(op.Delta)
-				ev["kind"] = "whentime"
-				ev["times"] = map[string]uint64{op.State: t}
+				// the target tick is the SPECIFICATION's to compute
+				ev["state"], ev["delta"] = op.State, op.Delta
 				ch = m.WhenTicks(op.State, op.Delta, getCtx(op.Ctx))
 			case "whennextactive":
-				t := m.Tick(op.State) + uint64(am.NextActiveIn(m.Tick(op.State)))
-				ev["kind"] = "whentime"
-				ev["times"] = map[string]uint64{op.State: t}
+				ev["state"] = op.State
 				ch = m.WhenNextActive(op.State, getCtx(op.Ctx))
+			case "whenargs":
+				ev["state"], ev["args"] = op.State, argPairs(op.Args)
+				ch = m.WhenArgs(op.State, toA(op.Args), getCtx(op.Ctx))
+			case "whenqueueends":
+				ch = m.WhenQueueEnds()
 			case "whenquery":
 				q := *op.Q
 				if q.Kind == "ge" {
@@ -286,9 +315,9 @@ func Run(sc Scenario) (lines []any) {
 					}
 				}()
 				if op.Type == "add" {
-					m.Add(op.States, nil)
+					m.Add(op.States, toA(op.Args))
 				} else {
-					m.Remove(op.States, nil)
+					m.Remove(op.States, toA(op.Args))
 				}
 				close(done)
 			})
@@ -304,7 +333,7 @@ func Run(sc Scenario) (lines []any) {
 				if act == nil {
 					act = am.S{}
 				}
-				tx := map[string]any{"newClock": after, "newActive": act}
+				tx := map[string]any{"newClock": after, "newActive": act, "args": argPairs(op.Args)}
 				if info != nil {
 					for k, v := range info {
 						tx[k] = v
@@ -404,7 +433,14 @@ func RandScenario(r *rand.Rand, nops int, withSchema, withDispose bool) Scenario
 		if r.Intn(3) == 0 {
 			ctx = 1 + r.Intn(2)
 		}
-		switch r.Intn(9) {
+		argSets := []map[string]int{{}, {"a": 1}, {"a": 1, "b": 2}, {"b": 2}, {"a": 2}}
+		switch r.Intn(13) {
+		case 9, 10:
+			return Op{Op: "sub", Kind: "whenargs", State: one(), Args: argSets[r.Intn(len(argSets))], Ctx: ctx}
+		case 11:
+			return Op{Op: "sub", Kind: "whenqueueends"}
+		case 12:
+			return Op{Op: "sub", Kind: "whenargs", State: "B", Args: argSets[1+r.Intn(2)], Ctx: ctx}
 		case 0, 1:
 			return Op{Op: "sub", Kind: "when", States: pickStates(), Ctx: ctx}
 		case 2:
@@ -437,6 +473,9 @@ func RandScenario(r *rand.Rand, nops int, withSchema, withDispose bool) Scenario
 		default:
 			tx := Op{Op: "tx", Type: []string{"add", "add", "remove"}[r.Intn(3)], States: pickStates(),
 				Veto: r.Intn(5) == 0}
+			if tx.Type == "add" && r.Intn(2) == 0 {
+				tx.Args = []map[string]int{{"a": 1}, {"a": 1, "b": 2}, {"b": 2}, {"a": 2}, {"a": 1, "b": 2, "c": 3}}[r.Intn(5)]
+			}
 			for k := r.Intn(3); k > 0; k-- {
 				if r.Intn(4) == 0 {
 					tx.Window = append(tx.Window, Op{Op: "cancel", Ctx: 1 + r.Intn(2)})
